@@ -4,6 +4,7 @@ import (
 	"bufio"
 	"fmt"
 	"io"
+	"os"
 	"os/exec"
 	"strconv"
 	"strings"
@@ -76,6 +77,10 @@ func NewSolver(kind string, timeoutMS int) (*Solver, error) {
 		return nil, err
 	}
 	s := &Solver{Kind: kind, cmd: cmd, in: in, out: bufio.NewReaderSize(out, 1<<16), printer: NewPrinter(), TimeoutMS: timeoutMS}
+	if lp := os.Getenv("GOSYM_SOLVER_LOG"); lp != "" {
+		f, _ := os.OpenFile(fmt.Sprintf("%s.%d.%s", lp, cmd.Process.Pid, kind), os.O_CREATE|os.O_WRONLY|os.O_TRUNC, 0o644)
+		s.Log = f
+	}
 	s.preamble()
 	return s, nil
 }
@@ -166,7 +171,13 @@ func (s *Solver) roundTrip(cmds string) ([]string, error) {
 // model values of those variables are returned.
 func (s *Solver) Check(extra *Term, vars []*Term) (Result, map[string]uint64) {
 	start := time.Now()
-	defer func() { s.Seconds += time.Since(start).Seconds() }()
+	defer func() {
+		d := time.Since(start).Seconds()
+		s.Seconds += d
+		if s.Log != nil {
+			fmt.Fprintf(s.Log, "; query took %.4fs\n", d)
+		}
+	}()
 	s.Queries++
 	s.flush()
 	s.dirty = true
